@@ -522,6 +522,20 @@ def recoverFromWalOld (c : Coord) (now : Nat) : Coord × Res :=
   ({ c with pending := p, locks := releaseAll (st.orphaned.map (·.2)) c.locks },
    .recovered st.prepared.length st.committing.length st.aborting.length st.orphaned.length)
 
+/-- `recover_from_wal` in the variant **RecoveryReplacesPending** (NOT the code): the restored
+    transactions are collected in a scratch map that is then published over the coordinator's
+    map (`*self.pending.write() = restored`) instead of being inserted into it.  On a new process
+    (empty map) it is `recoverFromWal`; on a running coordinator it drops every transaction the
+    log does not restore.  Kept only for the contrast / `_witness` theorems of `PropsLive`. -/
+def recoverFromWalRecoveryReplacesPending (c : Coord) (now : Nat) : Coord × Res :=
+  let st := fromEntries c.log
+  let p := restoreAll st.prepared .prepared now []
+  let p := restoreAll st.committing .committing now p
+  let p := restoreAll st.aborting .aborting now p
+  ({ c with pending := p, locks := releaseAll (st.orphaned.map (·.2)) c.locks,
+            nextHandle := bumpCounter c.nextHandle st },
+   .recovered st.prepared.length st.committing.length st.aborting.length st.orphaned.length)
+
 /-- what `recover()` does to one pending transaction (distributed_tx.rs:2102-2144); `any_no()` is
     the complement of `all_yes()` (a vote is Yes, No or Conflict), so the "still waiting" arm of
     the Prepared case is dead -/
